@@ -934,3 +934,162 @@ impl VWakeProducer {
         VLinkFlowState::conv(self.inner.produce((lf, OutputHandle(0))).await)
     }
 }
+
+/// A `Connection` (channel allocation and routing part) driven synchronously
+pub struct VConnection {
+    pub(crate) inner: crate::connection::Connection,
+    pub(crate) rxs: HashMap<u16, mpsc::Receiver<SessionFrame>>,
+}
+
+fn connection_state(code: u8) -> fe2o3_amqp_types::states::ConnectionState {
+    use fe2o3_amqp_types::states::ConnectionState as S;
+    match code {
+        0 => S::Start,
+        1 => S::HeaderReceived,
+        2 => S::HeaderSent,
+        3 => S::HeaderExchange,
+        4 => S::OpenPipe,
+        5 => S::OpenClosePipe,
+        6 => S::OpenReceived,
+        7 => S::OpenSent,
+        8 => S::ClosePipe,
+        9 => S::Opened,
+        10 => S::CloseReceived,
+        11 => S::CloseSent,
+        12 => S::Discarding,
+        _ => S::End,
+    }
+}
+
+impl VConnection {
+    pub fn new(state: u8, local_channel_max: u16) -> Self {
+        use fe2o3_amqp_types::performatives::{ChannelMax, Open};
+        let open = Open {
+            container_id: "verif".to_string(),
+            hostname: None,
+            max_frame_size: Default::default(),
+            channel_max: ChannelMax(local_channel_max),
+            idle_time_out: None,
+            outgoing_locales: None,
+            incoming_locales: None,
+            offered_capabilities: None,
+            desired_capabilities: None,
+            properties: None,
+        };
+        Self {
+            inner: crate::connection::Connection::new(connection_state(state), open),
+            rxs: HashMap::new(),
+        }
+    }
+
+    pub fn agreed_channel_max(&self) -> u16 {
+        self.inner.agreed_channel_max
+    }
+
+    pub fn on_incoming_open(&mut self, remote_channel_max: u16) -> Result<(), String> {
+        use crate::endpoint::Connection as _;
+        use fe2o3_amqp_types::performatives::{ChannelMax, Open};
+        let open = Open {
+            container_id: "peer".to_string(),
+            hostname: None,
+            max_frame_size: Default::default(),
+            channel_max: ChannelMax(remote_channel_max),
+            idle_time_out: None,
+            outgoing_locales: None,
+            incoming_locales: None,
+            offered_capabilities: None,
+            desired_capabilities: None,
+            properties: None,
+        };
+        self.inner
+            .on_incoming_open(IncomingChannel(0), open)
+            .map_err(|e| format!("{:?}", e))
+    }
+
+    pub fn allocate_session(&mut self) -> Result<u16, String> {
+        use crate::endpoint::Connection as _;
+        let (tx, rx) = mpsc::channel(1 << 12);
+        let ch = self
+            .inner
+            .allocate_session(tx)
+            .map_err(|e| format!("{:?}", e))?;
+        self.rxs.insert(ch.0, rx);
+        Ok(ch.0)
+    }
+
+    /// `Slab::remove` panics on a vacant key; the caller may want to catch that
+    pub fn deallocate_session(&mut self, channel: u16) {
+        use crate::endpoint::Connection as _;
+        self.inner.deallocate_session(OutgoingChannel(channel));
+    }
+
+    pub fn on_incoming_begin(&mut self, incoming_channel: u16, remote_channel: Option<u16>) -> Result<(), String> {
+        use crate::endpoint::Connection as _;
+        let begin = Begin {
+            remote_channel,
+            next_outgoing_id: 0,
+            incoming_window: 1,
+            outgoing_window: 1,
+            handle_max: Handle(u32::MAX),
+            offered_capabilities: None,
+            desired_capabilities: None,
+            properties: None,
+        };
+        self.inner
+            .on_incoming_begin(IncomingChannel(incoming_channel), begin)
+            .now_or_never()
+            .expect("on_incoming_begin pending")
+            .map_err(|e| format!("{:?}", e))
+    }
+
+    pub fn on_incoming_end(&mut self, incoming_channel: u16) -> Result<(), String> {
+        use crate::endpoint::Connection as _;
+        use fe2o3_amqp_types::performatives::End;
+        self.inner
+            .on_incoming_end(IncomingChannel(incoming_channel), End { error: None })
+            .now_or_never()
+            .expect("on_incoming_end pending")
+            .map_err(|e| format!("{:?}", e))
+    }
+
+    /// Forward a marker frame (a flow) to the session registered under the incoming channel, as
+    /// `forward_to_session` does, and report which local (outgoing) channels' sessions got a frame
+    pub fn route(&mut self, incoming_channel: u16) -> Result<Vec<u16>, String> {
+        use crate::endpoint::Connection as _;
+        let flow = Flow {
+            next_incoming_id: None,
+            incoming_window: 0,
+            next_outgoing_id: 0,
+            outgoing_window: 0,
+            handle: None,
+            delivery_count: None,
+            link_credit: None,
+            available: None,
+            drain: false,
+            echo: false,
+            properties: None,
+        };
+        let frame = SessionFrame::new(incoming_channel, SessionFrameBody::Flow(flow));
+        match self.inner.session_tx_by_incoming_channel(IncomingChannel(incoming_channel)) {
+            Some(tx) => tx.try_send(frame).map_err(|e| format!("{:?}", e))?,
+            None => return Err("NotFound".to_string()),
+        }
+        Ok(self.drain())
+    }
+
+    /// Local channels whose session received at least one frame since the last call
+    pub fn drain(&mut self) -> Vec<u16> {
+        let mut got = Vec::new();
+        for (ch, rx) in self.rxs.iter_mut() {
+            let mut any = false;
+            while rx.try_recv().is_ok() {
+                any = true;
+            }
+            if any {
+                got.push(*ch);
+            }
+        }
+        got.sort();
+        got
+    }
+}
